@@ -304,6 +304,49 @@ func c09RunAfterRejected(cells []c09Cell, binary bool) explore.Result {
 	return res
 }
 
+// c09RunTwoPortals: Bind p1 (format A), Describe p1, Bind p2 (format B), Describe p2, Execute p1, Execute p2:
+// every row must decode in the format ITS portal announced.
+func c09RunTwoPortals(cell c09Cell, firstBinary bool) explore.Result {
+	var res explore.Result
+	res.Outcome = "values"
+	res.Key = fmt.Sprint("two-portals", cell.String(), firstBinary)
+	cols := wire.Columns{{Name: "c0", Oid: oid.Oid(cell.OID)}}
+	parse := func(ctx context.Context, q string) (wire.PreparedStatements, error) {
+		return wire.Prepared(wire.NewStatement(func(ctx context.Context, w wire.DataWriter, p []wire.Parameter) error {
+			if err := w.Row([]any{cell.V}); err != nil {
+				return err
+			}
+			return w.Complete("SELECT 1")
+		}, wire.WithColumns(cols))), nil
+	}
+	one, err := harness.StartOne(parse)
+	if err != nil {
+		res.Engine = err.Error()
+		return res
+	}
+	defer one.Stop()
+	one.Step(pgproto.Startup("user", "u"))
+	f1, f2 := int16(0), int16(1)
+	if firstBinary {
+		f1, f2 = 1, 0
+	}
+	out, _ := one.Step(pgproto.Cat(pgproto.Parse("s", "q"), pgproto.Bind("p1", "s", nil, nil, []int16{f1}), pgproto.Describe('P', "p1"),
+		pgproto.Bind("p2", "s", nil, nil, []int16{f2}), pgproto.Describe('P', "p2"), pgproto.Execute("p1", 0), pgproto.Execute("p2", 0), pgproto.Sync()))
+	ms, perr := pgproto.ParseBackend(out)
+	if perr != nil || pgproto.Kinds(ms) != "12T2TDCDCZ" {
+		res.Fail("reply-sequence", fmt.Sprintf("two portals: reply %q %v", pgproto.Kinds(ms), perr))
+		return res
+	}
+	for i, pair := range [][2]int{{2, 5}, {4, 7}} {
+		t, d := ms[pair[0]], ms[pair[1]]
+		got, derr := pgproto.DecodeValue(t.Cols[0].OID, t.Cols[0].Format, d.Row[0])
+		if derr != nil || got != cell.Canon {
+			res.Fail("undecodable-in-announced-format", fmt.Sprintf("portal p%d announced format %d for %s but its DataRow field % x decodes to %q (%v)", i+1, t.Cols[0].Format, cell, d.Row[0], got, derr))
+		}
+	}
+	return res
+}
+
 func init() {
 	explore.Register(&explore.Check{
 		ID:        "C09",
@@ -341,6 +384,18 @@ func c09Enumerate(tier string, emit explore.Emit) {
 			for _, f := range n.Forms {
 				add([]c09Cell{{n.Type, n.OID, f.Name, f.V, "NULL"}}, bin, 1)
 			}
+		}
+	}
+	// two portals bound with different result formats before either is executed
+	for _, v := range vals {
+		if v.Type != "int4" && v.Type != "int8" && v.Type != "bool" && v.Type != "float8" {
+			continue
+		}
+		for _, firstBinary := range []bool{true, false} {
+			cell, fb := c09Cell{v.Type, v.OID, v.Forms[0].Name, v.Forms[0].V, v.Canon}, firstBinary
+			emit(explore.Case{Family: "two-portals", Size: 2,
+				Desc: func() any { return map[string]any{"value": cell.String(), "first_portal_binary": fb, "second_portal_binary": !fb} },
+				Run:  func() explore.Result { return c09RunTwoPortals(cell, fb) }})
 		}
 	}
 	// multi-column rows: every placement of NULLs, every NULL form
